@@ -272,13 +272,13 @@ theorem tokStartTag_class (cfg : Cfg) (s : St) (hw : DispWf s.disp) (name : Byte
   · simp only [Option.some.injEq] at h; exact Or.inr (Or.inr (Or.inl h.symm))
 
 theorem tokEndTag_class (s : St) (hw : DispWf s.disp) (name raw : Bytes) (src : Range) (e : Err)
-    (h : (tokEndTag s name raw src).2.err = some e) : Residual e := by
+    (h : (tokEndTag s name raw src).2.err = some e) : e = .panic rPayload := by
   unfold tokEndTag at h
   obtain ⟨r, hr⟩ := removeTail_ok hw.endTag
   rw [hr] at h
   dsimp only at h
   split at h
-  · simp only [Option.some.injEq] at h; exact Or.inr (Or.inr h.symm)
+  · simp only [Option.some.injEq] at h; exact h.symm
   · simp at h
 
 /-! ### the events -/
@@ -412,13 +412,13 @@ theorem Full_start_no_panic_novm (cfg : Cfg) (s : St) (hJ : J cfg s) (hv : s.vm 
 /-- **Full_end_no_panic.** An end-tag event from a state satisfying `J`: either it ends without error in a
 state satisfying `J` again (in particular NO fault was recorded: `pop_up_to`'s count bookkeeping, every
 `dec_user_count`, the end-tag handler locators and `matched_elements_with_removed_content -= 1` were
-all in range), or it fails at the residual "payload missing" site. -/
+all in range), or it fails at the residual "payload missing" site (`rPayload`). -/
 theorem Full_end_no_panic (cfg : Cfg) (s : St) (hJ : J cfg s) (name : LocalName) (nm raw : Bytes) (src : Range) :
     ((ctlStep cfg s (.end_ name (.endTag nm raw src))).2 = none →
       J cfg (ctlStep cfg s (.end_ name (.endTag nm raw src))).1 ∧
       ∀ vm, s.vm = some vm → ∃ vm', vm.handleEndTag (nameBytes name) = .ok vm' ∧
         (ctlStep cfg s (.end_ name (.endTag nm raw src))).1.vm = some vm') ∧
-    (∀ e, (ctlStep cfg s (.end_ name (.endTag nm raw src))).2 = some e → Residual e) := by
+    (∀ e, (ctlStep cfg s (.end_ name (.endTag nm raw src))).2 = some e → e = .panic rPayload) := by
   obtain ⟨sp, hinv⟩ := hJ.scope
   have hpre : ∀ vm, s.vm = some vm → PreOk vm.stack := by
     intro vm hv
@@ -576,7 +576,7 @@ theorem ctlStep_no_panic (cfg : Cfg) (hb : IdsBounded (theProgram cfg) cfg.sels.
     cases tok with
     | endTag nm raw src =>
       obtain ⟨h1, h2⟩ := Full_end_no_panic cfg s hJ name nm raw src
-      exact ⟨fun h => (h1 h).1, fun e he => Or.inr (h2 e he)⟩
+      exact ⟨fun h => (h1 h).1, fun e he => Or.inr (Or.inr (Or.inr (h2 e he)))⟩
     | startTag => simp [EvOk, CtlEv.WellKinded] at hev
     | comment => simp [EvOk, CtlEv.WellKinded] at hev
     | doctype => simp [EvOk, CtlEv.WellKinded] at hev
